@@ -112,7 +112,9 @@ func checkC02(tier, replay string) int {
 		pairArgs = []uint32{0, 1, 2, 3, 4, 5}
 	}
 	for _, a := range archs {
-		c02Pairs(ctx, r, a, vs, pairOps, pairArgs, func(a *refsem.Arch, op seccomp.Operation, arg uint32, v uint64) *seccomp.Policy { return mk(job{a, op, arg, v}) })
+		c02Pairs(ctx, r, a, vs, pairOps, pairArgs, func(a *refsem.Arch, op seccomp.Operation, arg uint32, v uint64) *seccomp.Policy {
+			return mk(job{a, op, arg, v})
+		})
 	}
 	return c02Finish(ctx, r)
 }
